@@ -13,3 +13,4 @@ func verifC19StreamNew(any, int)   {}
 func verifC19StreamCloseRecv(any)  {}
 func verifC19StreamCloseSend(any)  {}
 func verifC19StreamRecv(any, bool) {}
+func verifC19Merge(int)            {}
